@@ -344,6 +344,14 @@ class Inliner:
                 for c in st.cases:
                     if self._inline_in_body(rel, cls, fn, c.body):
                         changed = True
+            gen_stmts = self._expand_generator(st, cls, rel, fn)
+            if gen_stmts is not None:
+                body[i:i + 1] = gen_stmts
+                changed = True
+                self._guard = getattr(self, '_guard', 0) + 1
+                if self._guard > 500:
+                    break
+                continue
             site = self._find_site(st, cls, rel, fn)
             if site is None:
                 i += 1
@@ -600,6 +608,113 @@ class Inliner:
             out.append(st)
         self._count(hnode)
         return [ast.fix_missing_locations(s_) for s_ in _splice(out)] or [ast.Pass()]
+
+    def _expand_generator(self, st: ast.stmt, cls, rel, fn) -> Optional[list[ast.stmt]]:
+        """A new GENERATOR helper consumed on the spot is the loop it contains:
+             T = set(G(a..)) / list(G(a..))   ->   acc = set() / [];  <body of G with `yield v` -> acc.add(v) / acc.append(v)>;  T = acc
+             for x in G(a..): BODY            ->   <body of G with its single `yield v` -> `x = v; BODY`>      (BODY without break / continue)
+        Both keep the interleaving of the helper's statements with the consumption of each value, which is what a generator does.
+        Only the plain case: no `return`, no `yield from`, `yield` only as a statement, arguments that are names / attribute chains."""
+        consumer = None
+        if isinstance(st, ast.Assign) and len(st.targets) == 1 and isinstance(st.value, ast.Call) and isinstance(st.value.func, ast.Name) and \
+                st.value.func.id in ('set', 'list') and len(st.value.args) == 1 and not st.value.keywords and isinstance(st.value.args[0], ast.Call):
+            consumer, call = st.value.func.id, st.value.args[0]
+        elif isinstance(st, ast.For) and isinstance(st.iter, ast.Call) and not st.orelse and isinstance(st.target, ast.Name):
+            consumer, call = 'for', st.iter
+            if _own_jumps(st.body, (ast.Break, ast.Continue)):
+                return None
+        else:
+            return None
+        f = call.func
+        name = f.attr if isinstance(f, ast.Attribute) else f.id if isinstance(f, ast.Name) else None
+        if name not in self.new:
+            return None
+        hrel, hq, hcls, hnode = self.new[name]
+        if hnode is fn or isinstance(hnode, ast.AsyncFunctionDef):
+            return None
+        recv = ast.unparse(f.value) if isinstance(f, ast.Attribute) else ''
+        if (recv == '') != (hcls is None):
+            return None
+        if recv and not (recv in ('self', 'cls', 'self.__class__', 'type(self)') or (cls is not None and recv == cls.name) or recv == hcls.name):
+            return None
+        decs = [ast.unparse(x) for x in hnode.decorator_list]
+        if any(x not in ('staticmethod', 'classmethod') for x in decs):
+            return None
+        inner = [n for n in ast.walk(hnode) if n is not hnode]
+        if any(isinstance(n, FUNC + (ast.Lambda, ast.Return, ast.YieldFrom, ast.ClassDef)) for n in inner):
+            return None
+        yields = [n for n in inner if isinstance(n, ast.Yield)]
+        ystmts = [n for n in inner if isinstance(n, ast.Expr) and isinstance(n.value, ast.Yield) and n.value.value is not None]
+        if not yields or len(yields) != len(ystmts) or (consumer == 'for' and len(yields) != 1):
+            return None
+        if call.keywords or any(isinstance(a, ast.Starred) for a in call.args) or hnode.args.vararg or hnode.args.kwarg or hnode.args.kwonlyargs:
+            return None
+        k = next(_counter)
+        h = copy.deepcopy(hnode)
+        params = [a.arg for a in h.args.posonlyargs + h.args.args]
+        mapping: dict[str, ast.AST] = {}
+        if 'staticmethod' not in decs and hcls is not None:
+            if not params:
+                return None
+            first = params.pop(0)
+            if 'classmethod' in decs:
+                mapping[first] = ast.parse({'self': 'self.__class__', 'cls': 'cls'}.get(recv, recv), mode='eval').body
+            elif recv != 'self':
+                return None
+            else:
+                mapping[first] = ast.Name('self', ast.Load())
+        defaults = dict(zip(params[len(params) - len(h.args.defaults):], h.args.defaults))
+        if len(call.args) > len(params):
+            return None
+        args = dict(zip(params, call.args))
+        for p_ in params:
+            if p_ not in args:
+                if p_ not in defaults:
+                    return None
+                args[p_] = defaults[p_]
+        stores = {n.id for n in ast.walk(h) if isinstance(n, ast.Name) and isinstance(n.ctx, (ast.Store, ast.Del))}
+        for p_, a_ in args.items():
+            if not _simple(a_) or p_ in stores:
+                return None
+            mapping[p_] = a_
+        caller_names = _all_names(fn)
+        rename = {n_: f'{n_}__inl{k}' for n_ in _assigned_names(h) - set(params) if n_ in caller_names}
+        body = [s_ for s_ in h.body]
+        if body and isinstance(body[0], ast.Expr) and isinstance(body[0].value, ast.Constant) and isinstance(body[0].value.value, str):
+            body = body[1:]
+        sub = _Subst(mapping, rename)
+        body = [sub.visit(s_) for s_ in body]
+        acc = f'__acc{k}'
+
+        def rewrite(stmts: list) -> list:
+            out = []
+            for s_ in stmts:
+                if isinstance(s_, ast.Expr) and isinstance(s_.value, ast.Yield):
+                    v = s_.value.value
+                    if consumer == 'for':
+                        out.append(ast.copy_location(ast.Assign([ast.Name(st.target.id, ast.Store())], v, lineno=s_.lineno), s_))
+                        out.extend(st.body)
+                    else:
+                        out.append(ast.copy_location(ast.Expr(ast.Call(ast.Attribute(ast.Name(acc, ast.Load()), 'add' if consumer == 'set' else 'append', ast.Load()),
+                                                                        [v], [])), s_))
+                    continue
+                for fld in ('body', 'orelse', 'finalbody'):
+                    subl = getattr(s_, fld, None)
+                    if isinstance(subl, list) and subl and isinstance(subl[0], ast.stmt):
+                        setattr(s_, fld, rewrite(subl))
+                for h_ in getattr(s_, 'handlers', []) or []:
+                    h_.body = rewrite(h_.body)
+                out.append(s_)
+            return out
+        body = rewrite(body)
+        if consumer == 'for':
+            out = body
+        else:
+            init = ast.Call(ast.Name('set', ast.Load()), [], []) if consumer == 'set' else ast.List([], ast.Load())
+            out = [ast.copy_location(ast.Assign([ast.Name(acc, ast.Store())], init, lineno=st.lineno), st)] + body + \
+                  [ast.copy_location(ast.Assign(st.targets, ast.Name(acc, ast.Load()), lineno=st.lineno), st)]
+        self._count(hnode)
+        return [ast.fix_missing_locations(x) for x in out] or [ast.Pass()]
 
     def _count(self, hnode):
         self.inlined[hnode.name] = self.inlined.get(hnode.name, 0) + 1
